@@ -83,16 +83,20 @@ func (engC17) Gen(r *Rng, s *Script, idx int, tier string) {
 	npool := r.Range(1, 6)
 	s.Config["tasks"] = nt
 	s.Config["pool"] = npool
+	s.Config["rot"] = r.Intn(len(poolShapes))
 	if r.Chance(1, 4) {
 		s.Config["overwrite_builtin"] = 1 // pool index npool is then a built-in name
+	} else if r.Chance(1, 8) {
+		s.Config["empty_name"] = 1 // pool index npool is then the empty string
 	}
+	shared := s.Config["overwrite_builtin"] == 1 || s.Config["empty_name"] == 1
 	total := 0
 	for t := 0; t < nt; t++ {
 		n := r.Range(3, 12)
 		var steps []Step
 		for i := 0; i < n; i++ {
 			st := genRegStep(r, npool)
-			if s.Config["overwrite_builtin"] == 1 && r.Chance(1, 4) && (st.Op == "reg" || st.Op == "named" || st.Op == "setdeco") {
+			if shared && r.Chance(1, 4) && (st.Op == "reg" || st.Op == "named" || st.Op == "setdeco") {
 				st.A = npool
 			}
 			steps = append(steps, st)
@@ -106,7 +110,7 @@ func (engC17) Gen(r *Rng, s *Script, idx int, tier string) {
 func runRegTasks(s *Script, keepLog bool, probe func(rr *RegRun, task int, st *Step, log *EventLog) *Violation) (*RegRun, *Sched, *EventLog, *Violation) {
 	installHooks()
 	log := NewEventLog(keepLog)
-	rr := NewRegRun(s.Seed, s.Cfg("pool", 3), s.Cfg("overwrite_builtin", 0) == 1)
+	rr := NewRegRun(s.Seed, s.Cfg("pool", 3), RegOpts{OverwriteBuiltin: s.Cfg("overwrite_builtin", 0) == 1, EmptyName: s.Cfg("empty_name", 0) == 1, Rot: s.Cfg("rot", 0)})
 	sc := NewSched(s.Schedule, log)
 	var firstV *Violation
 	for t := range s.Tasks {
@@ -129,7 +133,8 @@ func runRegTasks(s *Script, keepLog bool, probe func(rr *RegRun, task int, st *S
 	return rr, sc, log, firstV
 }
 
-func (engC17) Exec(s *Script, keepLog bool) *Result {
+func (engC17) Exec(s *Script, keepLog bool) (guarded *Result) {
+	defer guardExec("C17", &guarded)
 	rr, sc, log, _ := runRegTasks(s, keepLog, nil)
 	defer rr.Close()
 	res := &Result{Probes: rr.Probes, Faults: map[string]int{}}
@@ -209,6 +214,7 @@ func (engC19) Assumptions() []string {
 func (engC19) Gen(r *Rng, s *Script, idx int, tier string) {
 	npool := r.Range(1, 6)
 	s.Config["pool"] = npool
+	s.Config["rot"] = r.Intn(len(poolShapes))
 	n := r.Range(2, 9)
 	var steps []Step
 	for i := 0; i < n; i++ {
@@ -237,7 +243,8 @@ func (engC19) Gen(r *Rng, s *Script, idx int, tier string) {
 	s.Config["tasks"] = len(s.Tasks)
 }
 
-func (engC19) Exec(s *Script, keepLog bool) *Result {
+func (engC19) Exec(s *Script, keepLog bool) (guarded *Result) {
+	defer guardExec("C19", &guarded)
 	concurrent := len(s.Tasks) > 1
 	probes := 0
 	rr, sc, log, v := runRegTasks(s, keepLog, func(rr *RegRun, task int, st *Step, log *EventLog) *Violation {
@@ -335,6 +342,11 @@ func (engC16) Gen(r *Rng, s *Script, idx int, tier string) {
 	if r.Chance(1, 2) {
 		errW = 3
 	}
+	shareErrs := -1
+	if r.Chance(1, 3) {
+		shareErrs = r.Intn(2)
+		s.Config["shared_error_list"] = 1 + shareErrs
+	}
 	for t := 0; t < nt; t++ {
 		var steps []Step
 		ctr := t * 1000
@@ -357,6 +369,10 @@ func (engC16) Gen(r *Rng, s *Script, idx int, tier string) {
 		if r.Chance(1, 3) {
 			// copies of one prepared cell value (with properties) go into several tables
 			steps = append(steps, Step{Op: "rowItems", Items: genItems(r, 1, 1, &ctr)}, Step{Op: "addTemplate", A: 0, B: r.Intn(4)})
+		}
+		if shareErrs >= 0 {
+			// the same prepared []error is handed to every table
+			steps = append(steps, Step{Op: "addTemplateErrs", A: shareErrs})
 		}
 		if r.Chance(2, 3) {
 			// values that independent tables typically have in common
@@ -446,7 +462,7 @@ func isRegistryTask(steps []Step) bool {
 }
 
 // runTableTask executes one task script in its own World.
-func runTableTask(steps []Step, y Yielder, log *EventLog, tr *taskResult, tmpl ...*tabular.Cell) {
+func runTableTask(steps []Step, y Yielder, log *EventLog, tr *taskResult, errs [][]error, tmpl ...*tabular.Cell) {
 	kind := 0
 	if len(steps) > 0 && steps[0].Op == "new" {
 		kind = pick(7, steps[0].A)
@@ -455,6 +471,7 @@ func runTableTask(steps []Step, y Yielder, log *EventLog, tr *taskResult, tmpl .
 	if len(tmpl) > 0 {
 		w.Template = tmpl[0]
 	}
+	w.TemplateErrs = errs
 	for i := range steps {
 		st := &steps[i]
 		switch st.Op {
@@ -485,7 +502,8 @@ func runRegistryTask(rr *RegRun, task int, steps []Step, log *EventLog) {
 	}
 }
 
-func (engC16) Exec(s *Script, keepLog bool) *Result {
+func (engC16) Exec(s *Script, keepLog bool) (guarded *Result) {
+	defer guardExec("C16", &guarded)
 	installHooks()
 	log := NewEventLog(keepLog)
 	res := &Result{Probes: map[string]int{}, Faults: map[string]int{}}
@@ -503,7 +521,7 @@ func (engC16) Exec(s *Script, keepLog bool) *Result {
 					solo[t].panic = fmt.Sprint(r)
 				}
 			}()
-			runTableTask(cloneSteps(steps), nil, nil, solo[t], tmpl)
+			runTableTask(cloneSteps(steps), nil, nil, solo[t], NewTemplateErrs(), tmpl)
 		}()
 		if solo[t].panic != "" {
 			// a panic with no concurrency involved belongs to C02/C09
@@ -513,9 +531,10 @@ func (engC16) Exec(s *Script, keepLog bool) *Result {
 		}
 	}
 	// concurrent execution under the scheduler
-	rr := NewRegRun(s.Seed, 4)
+	rr := NewRegRun(s.Seed, 4, RegOpts{})
 	sc := NewSched(s.Schedule, log)
 	conc := make([]*taskResult, len(s.Tasks))
+	sharedErrs := NewTemplateErrs() // the same slices for every task
 	for t := range s.Tasks {
 		tt := t
 		steps := cloneSteps(s.Tasks[t])
@@ -524,7 +543,7 @@ func (engC16) Exec(s *Script, keepLog bool) *Result {
 			continue
 		}
 		conc[t] = &taskResult{}
-		sc.Go(func(y Yielder) { runTableTask(steps, y, log, conc[tt], tmpl) })
+		sc.Go(func(y Yielder) { runTableTask(steps, y, log, conc[tt], sharedErrs, tmpl) })
 	}
 	sc.Run()
 	nTables := 0
